@@ -12,6 +12,7 @@ EXPLANATION = (
     "TC+MPT (specialisation visits every reference at every nesting in every definition and in the call variants), "
     "ARMS (each shell's builtin constant sits in that shell's arm; PATH gets the file spec, DIRECTORY the directory spec). "
     "NOT decided: that the builtin command strings do what their names say in each shell; value-level behaviour of emitted scripts."
+    " ARMS evaluates the built-in command text for every value of the Shell parameter (own vocabulary, directory vs file, PATH and DIRECTORY differ); DECLGUARD and RP of the level pass are shared."
 )
 ASSUMPTIONS = [
     "rustc accepts the tree; syn view equals the compiled program for non-macro code",
